@@ -131,6 +131,9 @@ class LineHooks(Hooks):
                 base.cls is not None and hasattr(base.cls, "mro"):
             if attr == "__dict__":
                 return base.attrs
+            if attr == "_refs" and self.repo.cls("Line") in base.cls.mro:
+                # every line has the dictionary of its back-references
+                return base.attrs.setdefault("_refs", {})
             if attr in self.all_refkeys() and \
                     self.repo.cls("Line") in base.cls.mro:
                 # a reference getter the rule did not populate: the line has
